@@ -36,7 +36,7 @@ ASSUMPTIONS = [
     "hand-subscribing two singleton observers built with subscribe=False is counted, not judged "
     "(the property's anchor is the constructor guard)",
 ]
-REQUIRED_COUNTERS = {"mid_round_unsubscriptions": 30, "history_observer_created_mid_history": 20, "update_events_checked": 2000, "reset_events_checked": 50,
+REQUIRED_COUNTERS = {"observers_built_unsubscribed": 50, "composite_before_child": 20, "mid_round_unsubscriptions": 30, "history_observer_created_mid_history": 20, "update_events_checked": 2000, "reset_events_checked": 50,
                      "rejected_requests": 50, "singleton_guard_checks": 50,
                      "create_or_get_checks": 50, "unsubscribes": 50,
                      "history_observer_checks": 200}
@@ -142,6 +142,41 @@ def run_case(ctx, case):
 
     for _ in range(rng.randint(1, 3)):
         add_recorder()
+    # observers built with subscribe=False are not subscribers and receive nothing
+    from job_shop_lib.dispatching.feature_observers import (FeatureObserver, CompositeFeatureObserver,
+                                                           IsScheduledObserver)
+
+    class CountingFeature(FeatureObserver):
+        """a feature observer that counts what it receives"""
+        def initialize_features(self):
+            pass
+
+        def update(self, scheduled_operation):
+            self.n_updates = getattr(self, "n_updates", 0) + 1
+
+        def reset(self):
+            self.n_resets = getattr(self, "n_resets", 0) + 1
+
+    silent = []
+    if rng.random() < 0.5:
+        before_ids = [id(x) for x in d.subscribers]
+        silent.append(Recorder(d, subscribe=False, label="SILENT", log=log, probe=probe))
+        silent.append(CountingFeature(d, subscribe=False))
+        silent.append(IsScheduledObserver(d, subscribe=False))
+        silent.append(UnscheduledOperationsObserver(d, subscribe=False))
+        ctx.count("observers_built_unsubscribed", len(silent))
+        if [id(x) for x in d.subscribers] != before_ids:
+            ctx.violation("c10_subscribe_false_observer_was_subscribed",
+                          {"subscribers": [repr(x) for x in d.subscribers]})
+    # a composite whose child is attached by hand AFTER it: the child is still notified once
+    late_child = None
+    if rng.random() < 0.3:
+        late_child = CountingFeature(d, subscribe=False)
+        comp = CompositeFeatureObserver(d, feature_observers=[late_child])
+        d.subscribe(late_child)
+        subs.append(comp); labels[id(comp)] = "COMPOSITE"
+        subs.append(late_child); labels[id(late_child)] = "LATE_CHILD"
+        ctx.count("composite_before_child")
     hist = None
     if rng.random() < 0.7:
         hist = HistoryObserver(d); subs.append(hist); labels[id(hist)] = "HIST"
@@ -157,7 +192,8 @@ def run_case(ctx, case):
             add_recorder()
         elif ev < 0.18 and recs:
             # any subscriber may leave: recorders, the history observer, built-in observers
-            pool = recs + [x for x in subs if not isinstance(x, Recorder) and rng.random() < 0.5]
+            pool = recs + [x for x in subs if not isinstance(x, Recorder) and rng.random() < 0.5
+                           and labels.get(id(x)) not in ("COMPOSITE", "LATE_CHILD")]
             ob = rng.choice(pool)
             d.unsubscribe(ob); subs.remove(ob)
             if ob is hist:
@@ -375,6 +411,18 @@ def run_case(ctx, case):
                     ctx.violation("c10_history_observer_record_differs",
                                   {"got": got, "want": model_hist, "same_objects": same_objs,
                                    "script": script})
+    for ob in silent:
+        got_u, got_r = getattr(ob, "n_updates", 0), getattr(ob, "n_resets", 0)
+        if got_u or got_r or any(e[0] == "SILENT" for e in log):
+            ctx.violation("c10_unsubscribed_observer_was_notified",
+                          {"observer": type(ob).__name__, "updates": got_u, "resets": got_r})
+    if late_child is not None and late_child in subs:
+        n_disp = sum(1 for e in script if e[0] == "dispatch")
+        n_reset = sum(1 for e in script if e[0] == "reset")
+        if getattr(late_child, "n_updates", 0) != n_disp or getattr(late_child, "n_resets", 0) != n_reset:
+            ctx.violation("c10_child_of_composite_notified_wrong_number_of_times",
+                          {"updates": getattr(late_child, "n_updates", 0), "dispatches": n_disp,
+                           "resets": getattr(late_child, "n_resets", 0), "resets_expected": n_reset})
     # ---------------------------------------------------------------- offline log check
     got_log = [(lb, evn, None if so is None else so.operation.operation_id) for lb, evn, so, _ in log]
     want_log = [(lb, evn, o) for lb, evn, o, _ in expected]
